@@ -759,13 +759,13 @@ var wantProbes = map[string][]string{
 	"C10": {"cas_failed", "collision_retry", "alert", "sink_stall_forever", "reentrant_alert_write", "pool_reuse_other_task"},
 	"C11": {"cas_failed", "collision_retry", "alert", "sink_slow"},
 	"C12": {"cas_failed", "cond_broadcast_no_waiter", "cond_broadcast_woke", "mutex_contended"},
-	"C05": {"pool_reuse_other_task", "pool_miss", "open_events_overlap", "pool_non_lifo"},
+	"C05": {"pool_reuse_other_task", "pool_miss", "open_events_overlap", "pool_non_lifo", "late_update_context"},
 	"C13": {"linearizable_histories", "clock_backwards", "clock_jump_forward", "clock_frozen", "sampling_disabled_phase", "level_rejected_event"},
 	"C14": {"dst_error", "dst_short_write"},
 	"C15": {"linearizable_histories", "mutex_contended", "pool_reuse", "dst_blocks"},
 	"C17": {"crash_point", "bit_flip", "header_overwrite", "huge_length", "zeroed_range", "dropped_range", "duplicated_tail", "garbage_tail", "read_error"},
-	"C18": {"rw_short_write", "rw_error", "pool_reuse_other_task"},
-	"C06": {"pool_reuse_other_task", "pool_miss", "pool_drop", "sink_overlap", "two_events_open", "sink_blocks_in_write", "sink_error", "global_level_flip", "mutex_contended"},
+	"C18": {"rw_short_write", "rw_error", "rw_partial_then_error", "pool_reuse_other_task"},
+	"C06": {"hook_discards_event", "pool_reuse_other_task", "pool_miss", "pool_drop", "sink_overlap", "two_events_open", "sink_blocks_in_write", "sink_error", "global_level_flip", "mutex_contended"},
 }
 
 func writeEvidence(id, tier string, seed uint64, cfg propCfg, st Stats, distinct, nviol int, wallS, buildS float64, workers int, realC, stubC, unreached []string, nknown int) {
